@@ -608,6 +608,36 @@ func c13RunFold(c c13FoldCase) (info c13Info, err error) {
 	if _, err := cache.Resolve(a); err == nil {
 		return fail("Resolve(A) still succeeds after Unlink(B)")
 	}
+	if differs {
+		// A store inherited from a case-sensitive past (an older version, a copied directory) may hold BOTH spellings
+		// as link files. They are still one model name: every spelling addresses the same link.
+		mdir := filepath.Join(env.sb.Root, "manifests")
+		pa := filepath.Join(append([]string{mdir}, c.A[:]...)...)
+		bp := c13NameParts(nb)
+		pb := filepath.Join(append([]string{mdir}, bp[:]...)...)
+		if pa != pb && os.MkdirAll(filepath.Dir(pa), 0o755) == nil && os.MkdirAll(filepath.Dir(pb), 0o755) == nil &&
+			os.WriteFile(pa, []byte("1"), 0o644) == nil && os.WriteFile(pb, []byte("22"), 0o644) == nil {
+			info.classes = append(info.classes, "inherited_links_in_both_spellings")
+			ga, ea := cache.Resolve(a)
+			gb, eb := cache.Resolve(b)
+			if ea != nil || eb != nil || ga != gb {
+				return fail("with link files in both spellings on disk: Resolve(A) = %v, %v but Resolve(B) = %v, %v", ga, ea, gb, eb)
+			}
+			for _, x := range []string{b, a} {
+				if err := cache.Link(x, d[2]); err != nil {
+					return fail("with link files in both spellings on disk: Link(%q): %v", x, err)
+				}
+				for _, y := range []string{a, b} {
+					if g, err := cache.Resolve(y); err != nil || g != d[2] {
+						return fail("with link files in both spellings on disk: Resolve(%q) = %v, %v after Link(%q, %v)", y, g, err, x, d[2])
+					}
+				}
+				// put the two files back for the other spelling's turn
+				os.WriteFile(pa, []byte("1"), 0o644)
+				os.WriteFile(pb, []byte("22"), 0o644)
+			}
+		}
+	}
 	return info, nil
 }
 
